@@ -44,3 +44,24 @@ def call(ev: Evaluator, f: Func, args=(), kw=None, self_val=None):
 
 def call_ref(ev: Evaluator, mod: Module, node, args=(), kw=None):
     return ev.call_fn(node, mod, list(args), dict(kw or {}), {'__parent__': None}, 1)
+
+
+def bound_args(prog, at):
+    """{parameter name: argument key} of a call atom ('call', ('fn'|'cls', name), positional keys, keyword keys) of a package function / dataclass"""
+    import ast as _ast
+    from .prog import params_of
+    out = dict(at[3])
+    kind, name = at[1][0], at[1][1]
+    names = []
+    if kind == 'fn':
+        for q, f in prog.funcs.items():
+            if f.parent is None and f.node.name == name and not isinstance(f.node, _ast.Lambda):
+                names = params_of(f.node)[0]; break
+    elif kind == 'cls':
+        for m in prog.modules.values():
+            c = m.defs.get(name)
+            if isinstance(c, _ast.ClassDef):
+                names = [f[0] for f in prog.dataclass_fields(m, c) if f[3]]; break
+    for i, a in enumerate(at[2]):
+        if i < len(names): out.setdefault(names[i], a)
+    return out
